@@ -31,6 +31,12 @@ CONFIGS['h4d-cyclic-save'] = ([4, 3, 3, 3], 'handler', [2], [[0, 1, 2, 3], [0, 2
 CONFIGS['h4d-cyclic-uneven-save-c'] = ([5, 2, 3, 4], 'handler', [3], [[0, 1, 2, 3], [0, 2, 3, 1], [0, 3, 1, 2], [3, 2, 1, 0]], True, 'c')
 
 
+# a square of layouts (every diagonal has two equally short two-step routes): the route map's tie-break by names is exercised
+# with names whose alphabetical order differs from the insertion order (suffix = names of the four layouts in insertion order)
+for _nm, _N in (('DACB', [4, 4, 4, 4]), ('CBAD', [5, 6, 3, 7]), ('BDCA', [4, 4, 4, 4]), ('DCBA', [5, 6, 3, 7])):
+    CONFIGS['h4sq-tied-' + _nm] = (_N, 'handler', [2, 2], [[0, 1, 2, 3], [2, 1, 0, 3], [0, 3, 2, 1], [2, 3, 0, 1]], _nm in ('DACB', 'DCBA'), 'fc'[_nm < 'C'])
+
+
 def _random_configs():
     # seeded random handler configurations (the workers rebuild the same ones from VERIF_SEED)
     import os
@@ -51,6 +57,8 @@ SW_LAYOUTS = [('v_parallel_2d', [0, 2, 1]), ('mode_solve', [1, 2, 0]), ('v_paral
 def cfg_layouts(cfg):
     N, kind, nprocs, layouts, hs, dt = CONFIGS[cfg]
     if kind == 'handler':
+        if cfg.startswith('h4sq-tied-'):
+            return list(zip(list(cfg.split('-')[-1]), layouts))
         return [('L%d' % i, l) for i, l in enumerate(layouts)]
     return SW_LAYOUTS
 
